@@ -24,7 +24,7 @@ class Path:
 
 class Explorer:
     """depth-first exploration of decision prefixes"""
-    def __init__(self, max_paths=4096, feas_timeout_ms=2000):
+    def __init__(self, max_paths=4096, feas_timeout_ms=600):
         self.work = []; self.path = None; self.max_paths = max_paths; self.npaths = 0
         self.feas_timeout_ms = feas_timeout_ms
         self.feas_cache = {}
@@ -52,6 +52,8 @@ def decide(c):
     c = z3.simplify(c)
     if z3.is_true(c): return True
     if z3.is_false(c): return False
+    st = static_truth(c)
+    if st is not None: return st
     p = path()
     if p.pos < len(p.prefix):
         v = p.prefix[p.pos]
@@ -93,6 +95,7 @@ def explore(fn, max_paths=None):
 
 # --------------------------------------------------------------------------- helpers
 _fresh = itertools.count()
+_KEEP = []
 def fresh_name(base): return '%s!%d' % (base, next(_fresh))
 
 def zi(o):
@@ -268,10 +271,14 @@ def _floordiv(a, b):
     # Python floor division; z3 Int div is euclidean, which is the floor for a positive divisor
     cb = conc(b)
     if cb is not None and cb > 0: return a / b
+    lb = lower_bound(b)
+    if lb is not None and lb > 0: return a / b
     return z3.If(b > 0, a / b, (-a) / (-b))
 def _pymod(a, b):
     cb = conc(b)
     if cb is not None and cb > 0: return a % b
+    lb = lower_bound(b)
+    if lb is not None and lb > 0: return a % b
     return a - b * _floordiv(a, b)
 
 def mk_int(z):
@@ -280,8 +287,57 @@ def mk_int(z):
     if z3.is_int_value(z): return z.as_long()
     return SInt(z)
 
+LOWER = {}       # ast id of an Int constant -> known lower bound (from sym_int); used by the static sign analysis
+def lower_bound(t):
+    """cheap syntactic lower bound of an Int term (None = unknown)"""
+    if z3.is_int_value(t): return t.as_long()
+    if z3.is_const(t): return LOWER.get(t.get_id())
+    k = t.decl().kind()
+    if k == z3.Z3_OP_ADD:
+        r = 0
+        for c in t.children():
+            b = lower_bound(c)
+            if b is None: return None
+            r += b
+        return r
+    if k == z3.Z3_OP_MUL:
+        r = 1
+        for c in t.children():
+            b = lower_bound(c)
+            if b is None or b < 0: return None
+            r *= b
+        return r
+    if k == z3.Z3_OP_ITE:
+        a, b = lower_bound(t.arg(1)), lower_bound(t.arg(2))
+        return None if a is None or b is None else min(a, b)
+    if k in (z3.Z3_OP_IDIV, z3.Z3_OP_DIV):
+        a, b = lower_bound(t.arg(0)), lower_bound(t.arg(1))
+        return 0 if (a is not None and a >= 0 and b is not None and b > 0) else None
+    if k == z3.Z3_OP_MOD:
+        b = lower_bound(t.arg(1)); return 0 if (b is not None and b > 0) else None
+    return None
+
+def static_truth(c):
+    """True / False / None for a comparison decided by lower bounds alone"""
+    try:
+        if z3.is_not(c):
+            r = static_truth(c.arg(0)); return None if r is None else (not r)
+        k = c.decl().kind()
+        if k not in (z3.Z3_OP_LE, z3.Z3_OP_LT, z3.Z3_OP_GE, z3.Z3_OP_GT): return None
+        a, b = c.arg(0), c.arg(1)
+        if not z3.is_int(a): return None
+        if k in (z3.Z3_OP_GE, z3.Z3_OP_GT): a, b = b, a; k = z3.Z3_OP_LE if k == z3.Z3_OP_GE else z3.Z3_OP_LT
+        d = lower_bound(z3.simplify(b - a, som=True))          # a <= b  iff  b - a >= 0
+        if d is not None and d >= (0 if k == z3.Z3_OP_LE else 1): return True
+        d2 = lower_bound(z3.simplify(a - b, som=True))         # a > b   iff  a - b >= 1
+        if d2 is not None and d2 >= (1 if k == z3.Z3_OP_LE else 0): return False
+    except Exception:
+        return None
+    return None
+
 def sym_int(name, lo=None, hi=None):
     v = z3.Int(name)
+    if isinstance(lo, int): LOWER[v.get_id()] = lo; _KEEP.append(v)
     if lo is not None: assume(v >= zi(lo))
     if hi is not None: assume(v <= zi(hi))
     return SInt(v)
@@ -380,6 +436,7 @@ def _weak_int_dtype(v, other_dt):
     return other_dt
 
 def _arith(a, b, op):
+    if hasattr(a, 'st') or hasattr(b, 'st'): return NotImplemented          # a tensor operand: let ndarray's reflected method handle it
     # floats dominate
     if isinstance(a, (SFloat, float, _rnp.floating)) or isinstance(b, (SFloat, float, _rnp.floating)):
         return _float_arith(a, b, op)
@@ -458,6 +515,7 @@ def _dtype_of(x):
     return None
 
 def _cmp(a, b, op):
+    if hasattr(a, 'st') or hasattr(b, 'st'): return NotImplemented
     if isinstance(a, (SFloat, float, _rnp.floating)) or isinstance(b, (SFloat, float, _rnp.floating)):
         return _float_cmp(to_float(a), to_float(b), op)
     if isinstance(a, SInt) or isinstance(b, SInt):
@@ -569,6 +627,7 @@ def _fdtype(a, b):
     return _rnp.result_type(da, db)
 
 def _float_arith(a, b, op):
+    if hasattr(a, 'st') or hasattr(b, 'st'): return NotImplemented
     dt = _fdtype(a, b)
     if dt.kind != 'f': dt = _rnp.dtype('float64')
     if op == '**':
